@@ -169,3 +169,70 @@ pub fn ws_batch_with_subscription(a: &Value) -> Value {
         json!({"scenario":"c02_ws_batch_with_subscription","observed":{"frames":frames.len(),"entries":entries},"violation":!why.is_empty(),"why":why.join(" | ")})
     })
 }
+
+/// Over WebSocket: a batch made of notifications only, and a single notification, get no frame at all; the next call's answer is the next frame.
+pub fn ws_notification_batch(_a: &Value) -> Value {
+    use jsonrpsee_server::Server;
+    use tokio::net::TcpStream;
+    use tokio_util::compat::TokioAsyncReadCompatExt;
+    let rt = tokio::runtime::Builder::new_multi_thread().worker_threads(2).enable_all().build().unwrap();
+    rt.block_on(async move {
+        let mut m = RpcModule::new(());
+        m.register_method("echo", |p, _, _| p.one::<u64>().unwrap_or(0)).unwrap();
+        let server = Server::builder().build("127.0.0.1:0").await.unwrap();
+        let addr = server.local_addr().unwrap();
+        let handle = server.start(m);
+        let sock = TcpStream::connect(addr).await.unwrap();
+        let host = addr.to_string();
+        let mut client = soketto::handshake::Client::new(sock.compat(), &host, "/");
+        match client.handshake().await.unwrap() {
+            soketto::handshake::ServerResponse::Accepted { .. } => {}
+            r => panic!("handshake: {r:?}"),
+        }
+        let (mut tx, mut rx) = client.into_builder().finish();
+        let (ftx, mut frx) = tokio::sync::mpsc::unbounded_channel::<String>();
+        tokio::spawn(async move {
+            let mut buf = Vec::new();
+            loop {
+                buf.clear();
+                match rx.receive_data(&mut buf).await {
+                    Ok(_) => {
+                        if ftx.send(String::from_utf8_lossy(&buf).to_string()).is_err() {
+                            break;
+                        }
+                    }
+                    Err(_) => break,
+                }
+            }
+        });
+        let mut why = vec![];
+        let silent = [
+            r#"[{"jsonrpc":"2.0","method":"echo","params":[1]},{"jsonrpc":"2.0","method":"echo","params":[2]}]"#,
+            r#"[{"jsonrpc":"2.0","method":"echo","params":[1]}]"#,
+            r#"{"jsonrpc":"2.0","method":"echo","params":[3]}"#,
+            r#"[{"jsonrpc":"2.0","method":"nope"}]"#,
+        ];
+        for (i, msg) in silent.iter().enumerate() {
+            let _ = tx.send_text(*msg).await;
+            let _ = tx.flush().await;
+            if let Ok(Some(frame)) = tokio::time::timeout(std::time::Duration::from_millis(300), frx.recv()).await {
+                why.push(format!("{msg} was answered with the frame {frame:?}"));
+            }
+            // the connection keeps serving, and the next frame is the next call's answer
+            let call = format!(r#"{{"jsonrpc":"2.0","id":"k{i}","method":"echo","params":[{i}]}}"#);
+            let _ = tx.send_text(call).await;
+            let _ = tx.flush().await;
+            match tokio::time::timeout(std::time::Duration::from_secs(3), frx.recv()).await {
+                Ok(Some(frame)) => {
+                    let v: Value = serde_json::from_str(&frame).unwrap_or(Value::Null);
+                    if v["id"] != json!(format!("k{i}")) || v["result"] != json!(i) {
+                        why.push(format!("after {msg} the next frame is {frame:?}"));
+                    }
+                }
+                _ => why.push(format!("after {msg} the connection stopped answering")),
+            }
+        }
+        let _ = handle.stop();
+        json!({"scenario":"c02_ws_notification_batch","observed":{"messages":silent.len()},"violation":!why.is_empty(),"why":why.join(" | ")})
+    })
+}
